@@ -157,6 +157,32 @@ Theorem C05_cache : forall (T : Type) (O : c05_ops T) fixdim conv g ops,
 Proof. exact @c05_cache_transparent. Qed.
 Print Assumptions C05_cache.
 
+(* compute_face_areas and calculate_total_face_area keep no memo: after ANY history of area
+   operations they return what a fresh grid returns, and leave the state as it was *)
+Theorem C05_compute_history_independent : forall (T : Type) (O : c05_ops T) fixdim conv g ops rule order latlon,
+  c05_step O fixdim conv g (c05_run O fixdim conv g c05_init ops) (C05_compute rule order latlon) =
+  (c05_run O fixdim conv g c05_init ops,
+   snd (c05_step O fixdim conv g c05_init (C05_compute rule order latlon))).
+Proof. exact @c05_compute_history_independent. Qed.
+Print Assumptions C05_compute_history_independent.
+Theorem C05_total_history_independent : forall (T : Type) (O : c05_ops T) fixdim conv g ops rule order,
+  c05_step O fixdim conv g (c05_run O fixdim conv g c05_init ops) (C05_total rule order) =
+  (c05_run O fixdim conv g c05_init ops,
+   snd (c05_step O fixdim conv g c05_init (C05_total rule order))).
+Proof. exact @c05_total_history_independent. Qed.
+Print Assumptions C05_total_history_independent.
+
+(* every listed corner is used: the fan has exactly len - 2 triangles, the j-th being
+   (x0, x_{j+1}, x_{j+2}), independently of the corners' coordinates and of the face's size *)
+Theorem C05_fan_length : forall (A : Type) (l : list A), length (c05_fan l) = (length l - 2)%nat.
+Proof. exact @c05_fan_length. Qed.
+Print Assumptions C05_fan_length.
+Theorem C05_fan_nth : forall (A : Type) (d : A) (l : list A) j,
+  (j + 2 < length l)%nat ->
+  nth j (c05_fan l) (d, d, d) = (nth 0 l d, nth (j + 1) l d, nth (j + 2) l d).
+Proof. exact @c05_fan_nth. Qed.
+Print Assumptions C05_fan_nth.
+
 (* ---- rigid motions: the Jacobian at every quadrature point depends on the corners only through
    their Gram matrix, so every orthogonal map (rotation, reflection, axis permutation) leaves the
    (area, jacobian) pair of a face unchanged in exact arithmetic ---- *)
